@@ -217,13 +217,19 @@ func checkWire(c wireCase) error {
 			preND, perr := proto.MarshalOptions{AllowPartial: true}.Marshal(m.Interface())
 			var preDet []byte
 			if perr == nil {
+				// (a lazily held extension is written as received under default options and
+				// re-encoded under deterministic ones: the two outputs may differ in length)
+				detSize := proto.MarshalOptions{AllowPartial: true, Deterministic: true}.Size(m.Interface())
 				preDet, perr = proto.MarshalOptions{AllowPartial: true, Deterministic: true}.Marshal(m.Interface())
+				if perr == nil && detSize != len(preDet) {
+					return fmt.Errorf("%s %s: right after Unmarshal: deterministic Size %d, deterministic Marshal wrote %d bytes (input %x)", implNames[i], st.name, detSize, len(preDet), b)
+				}
 			}
 			if perr != nil {
 				return fmt.Errorf("%s %s: Marshal right after a successful Unmarshal failed: %v (input %x)", implNames[i], st.name, perr, b)
 			}
-			if preSize != len(preDet) || preSize != len(preND) {
-				return fmt.Errorf("%s %s: right after Unmarshal: Size %d, Marshal wrote %d bytes (deterministic %d) (input %x)", implNames[i], st.name, preSize, len(preND), len(preDet), b)
+			if preSize != len(preND) {
+				return fmt.Errorf("%s %s: right after Unmarshal: Size %d, Marshal wrote %d bytes (input %x)", implNames[i], st.name, preSize, len(preND), b)
 			}
 			if r.snap, err = snapshot(st, m); err != nil {
 				return fmt.Errorf("%s %s after decoding %x: %v", implNames[i], st.name, b, err)
